@@ -40,3 +40,18 @@ func (f *GoodFan) run() {
 		}
 	}
 }
+
+// NewBadFanByValue starts the goroutine on the local value and then returns a COPY of it: the copy has its own mutex
+// but shares the map (control for R15.3 "a lock-carrying value is not copied once a goroutine uses it").
+func NewBadFanByValue(in chan int) GoodFan {
+	f := GoodFan{outs: map[int]chan int{}, in: in}
+	go f.run()
+	return f
+}
+
+// NewGoodFanByPointer hands out the address of the value the goroutine uses.
+func NewGoodFanByPointer(in chan int) *GoodFan {
+	f := GoodFan{outs: map[int]chan int{}, in: in}
+	go f.run()
+	return &f
+}
